@@ -6,7 +6,7 @@ import obl_phonetic
 def run(c):
     import clauses
     c.only_clauses = clauses.OWN["C02"]
-    obl_kani.run(c, ["k_suggestion_full_accessors", "k_suggestion_single_accessors"])
+    obl_kani.run(c, ["k_suggestion_full_accessors", "k_suggestion_selection_moved", "k_suggestion_single_accessors"])
     obl_phonetic.obl_phonetic_glue(c, 2 if c.tier == "quick" else 3, budget_s=900)
     import obl_fixed
     obl_fixed.obl_session_fixed(c, 2, 1, 1, budget_s=900) if c.tier == "quick" else obl_fixed.obl_session_fixed(c, 3, 2, 2, budget_s=2400)
